@@ -254,6 +254,8 @@ def crafted() -> list[dict]:
               F("Gone", "int8", versions="0-1"),
               F("Middle", "string", versions="1-2", default="abc"),
               F("Padded", "string", versions="1+", default=" n/a "),
+              F("Separators", "string", versions="1+", default="key\u2028value\u2029x\u0085y", about="text with \u2028 in it"),
+              F("Bom", "string", versions="1+", default="\ufeffsig"),
               F("Motto", "string", versions="1+", default="caf\u00e9 \u65e5\u672c v1-\U0001f680 \"q\" 'a' \\"),
               F("Groups", "[]Zc1Group", nullableVersions="3+", fields=[
                   F("GroupId", "string", entityType="groupId"),
